@@ -238,6 +238,8 @@ def run(chk):
 
     chk.rule("R10v", "PolarsImpl.__init__ interpreted on an eager and on a lazy frame stub: both kinds of resource get the same Datetime time-unit normalisation (ns / ms -> us; the native Datetime -> String prints as many fractional digits as the time unit has)")
 
+    chk.rule("R11v", "every back end's own compile_cast interpreted on the documented pairs and the resulting SQL term evaluated (three-valued logic, sqleval) for a NULL operand: null stays null (a CASE whose tests are all UNKNOWN for NULL must not end in a non-null ELSE)")
+
     ce, func, accepted, sources, targets = accepted_by_interpretation(chk, m)
     exp, rows = documented_table(T)
     # what the documented table means for the universe: sources are looked up without const and without a string
@@ -376,6 +378,9 @@ def run(chk):
 
     # ---- R10v time unit of Polars datetime columns (the digits Datetime -> String prints)
     _polars_time_unit(chk, m)
+
+    # ---- R11v null stays null through the dialect special cases of compile_cast
+    _null_stays_null(chk, m)
 
 
 def _type_helpers(chk, m, valid_pairs):
@@ -741,6 +746,46 @@ def _polars_time_unit(chk, m):
     chk.ob("R10v", mod, f.node, f"time-unit normalisation agrees for eager and lazy resources ({len(got['eager'][1])} mappings)", same,
            f"PolarsImpl.__init__ casts {sorted(got['eager'][1])} on an eager pl.DataFrame but {sorted(got['lazy'][1])} on a pl.LazyFrame (differs in {only}): a datetime "
            "column of the other resource kind keeps its ns / ms time unit, and Datetime -> String prints 9 / 3 fractional digits instead of the documented 6")  # fmt: skip
+
+
+def _null_stays_null(chk, m):
+    from .. import sqleval
+    from ..catalogue import DT
+    from ..interp import Native, Obj, PyRaise, SymbolicBranch, Term, Var
+    from ..program import Program
+
+    pairs = [("Float64", "String"), ("Float32", "String"), ("String", "Float64"), ("Float64", "Int64"), ("Int64", "String"), ("Datetime", "Date"), ("Date", "Datetime"),
+             ("Bool", "Int64"), ("Int64", "Float64"), ("Datetime", "String"), ("Date", "String"), ("String", "Int64")]  # fmt: skip
+    n = 0
+    for short, cname, dialect in (("backend.sqlite", "SqliteImpl", "sqlite"), ("backend.postgres", "PostgresImpl", "postgresql"), ("backend.duckdb", "DuckDbImpl", "duckdb"), ("backend.mssql", "MsSqlImpl", "mssql")):
+        try:
+            mod = chk.repo.mod(short)
+            prog = Program(chk.repo, m_types_env(m), primary=short)
+            cls_ = prog.env_of(mod)[cname]
+        except (AnalysisError, KeyError):
+            continue
+        fc = cls_.methods.get("compile_cast")
+        if fc is None or fc.owner is not cls_:
+            continue
+        for s_n, t_n in pairs:
+            for s_ in (DT(s_n), DT("Const", DT(s_n))):
+                t_ = DT(t_n)
+                o = Obj(cls_)
+                o.attrs.update({"sqa_type": Native(lambda t: Var(f"sqltype:{t!r}"), "cls.sqa_type"), "nan": Native(lambda: Var("nan"), "cls.nan"), "inf": Native(lambda: Var("inf"), "cls.inf"),
+                                "compile_col_expr": Native(lambda e, sqa_col, **k: Var("operand"), "cls.compile_col_expr")})  # fmt: skip
+                val = prog.new("tree.col_expr", "Col", name="c", _ast=None, _uuid="u", _dtype=s_, _ftype=None)
+                cast = prog.new("tree.col_expr", "Cast", val=val, target_type=t_, strict=True, _dtype=t_, _ftype=None)
+                what = f"{cname}.compile_cast({s_!r} -> {t_!r})"
+                try:
+                    r = prog.call(fc.bind(o), [cast, {}])
+                    v = sqleval.evaluate(r, {"operand": None, "inf": float("inf"), "nan": float("nan")}, dialect)
+                except (AnalysisError, SymbolicBranch, PyRaise, sqleval.Unknown, RecursionError, TypeError, KeyError):
+                    continue  # not decided for this pair (R3w / R6w / R7v judge whether an expression is built at all)
+                n += 1
+                chk.ob("R11v", mod, fc.node, what + ": NULL -> NULL", v is None,
+                       f"{what} builds {str(r)[:200]}; for a NULL operand it evaluates to {v!r} (every test on NULL is UNKNOWN, so the CASE falls "
+                       "through to its ELSE): the documented cast keeps null as null")  # fmt: skip
+    chk.floor("R11v", "casts evaluated for a NULL operand", n, 10)
 
 
 def m_types_env(m):
